@@ -93,6 +93,7 @@ func genHdrOps(r *R, n int) []HdrOp {
 }
 
 func (c11) Gen(r *R, tier string) any {
+	observeUnknownAPI = false
 	p := &C11Plan{StartZero: r.P(0.5), Salt: r.Intn(1 << 12)}
 	n := r.Range(1, 3)
 	for i := 0; i < n; i++ {
@@ -277,12 +278,13 @@ type delegate struct{ h http.Handler }
 func (d *delegate) ServeHTTP(w http.ResponseWriter, r *http.Request) { d.h.ServeHTTP(w, r) }
 
 func (c11) Exec(plan any, c *Ctx) *Violation {
+	observeUnknownAPI = false
 	p := plan.(*C11Plan)
 	c11Pending = nil
 	var m *cors.Middleware
 	configured := false
 	if p.StartZero || len(p.Cfgs) == 0 {
-		m = new(cors.Middleware)
+		m = zeroMW()
 	} else {
 		var err error
 		m, err, _ = newMW(p.Cfgs[0])
